@@ -42,6 +42,8 @@ STDERRS = [
     "a /A/B_c/d-e f /x /y/ //z/w /1/2/3\r\nline2\rline3\n\n",
     "java.lang.NullPointerException\nat the /data/hh-details/per_head node\n  \n",
     ">> Something broke parsing the form /data/meta/instanceID\n", "x\ty /data/q\tat /data/r\n",
+    "java.lang.RuntimeException: org.javarosa.xpath.XPathUnhandledException: cannot handle function 'foo' at /data/q1\n",
+    "java.lang.RuntimeException: org.javarosa.xform.parse.XFormParseException: bad bind /data/g/q-1\njava.lang.RuntimeException: java.lang.NullPointerException\n",
 ]
 
 
@@ -99,7 +101,9 @@ class CleanerOp(Op):
         from pyxform.validators.error_cleaner import ErrorCleaner
         frag = ["/data/q1", "/data/g/q-1", "/a", "/html/body/x", "/root/item/n", "/html/head/model/bind", "/data/x/item/value", "\n", "\n", " ", "x", "\tat",
                 ".java:", "Foo.java:3", "java.lang.RuntimeException: ", "java.lang.NullPointerException", "org.javarosa.xpath.XPathUnhandledException: ",
-                "org.javarosa.xform.parse.XFormParseException", "/", "//", "-", "_", "/A/b", "/9/8", "\r\n", "same\nsame", "é", ":", "${q}", "/data/hh-size/p_h", "\r", " \n"]
+                "org.javarosa.xform.parse.XFormParseException", "\njava.lang.RuntimeException: org.javarosa.xpath.XPathUnhandledException: ",
+                "\njava.lang.RuntimeException: java.lang.NullPointerException", "\norg.javarosa.xpath.XPathUnhandledException: org.javarosa.xform.parse.XFormParseException: ",
+                "\njava.lang.RuntimeException: org.javarosa.xform.parse.XFormParseException", "\njava.lang.NullPointerExceptionorg.javarosa.xform.parse.XFormParseException", "/", "//", "-", "_", "/A/b", "/9/8", "\r\n", "same\nsame", "é", ":", "${q}", "/data/hh-size/p_h", "\r", " \n"]
         cases = []
         for i in range(n):
             s = rng.choice(STDERRS) if i < len(STDERRS) * 2 else "".join(rng.choice(frag) for _ in range(rng.randint(1, 9)))
@@ -310,6 +314,11 @@ def oracle(seed, tier, searching=False):
                 msg = str(e)
                 if ".java:" in msg or "\tat " in msg:
                     fails.append({"what": "Java stack noise survives in the validation error", "input": {"stderr": err}, "observed": msg})
+                # exception class prefixes (the validator wraps them as RuntimeException: <inner class>: <diagnostic>) are noise too
+                noisy = [ln for ln in msg.split("\n") if ln.startswith(("java.lang.RuntimeException", "org.javarosa.xpath.XPathUnhandledException",
+                                                                          "java.lang.NullPointerException", "org.javarosa.xform.parse.XFormParseException"))]
+                if noisy:
+                    fails.append({"what": f"a Java exception class name survives at the start of a diagnostic line: {noisy[0][:120]!r}", "input": {"stderr": err}, "observed": msg})
                 if "/data/q1" in err and "${q1}" not in msg and "jarfile" not in err:
                     fails.append({"what": "instance path not shown as ${name}", "input": {"stderr": err}, "observed": msg})
                 if "/data/household-size" in err and "${household-size}" not in msg:
